@@ -45,10 +45,17 @@ def steps_of(h, steps):
 
 def run_case(case):
     wd = cli.scratch("c12")
-    base = case["opts"]
+    base = dict(case["opts"])
     d = cfggen.derive(base)
     fam = case["family"]
     results = []
+    if case.get("startleg"):
+        # all members start from the same phase-space record of an earlier results file (single bunch)
+        leg = dict(base, rotations=float(np.float32((case["startleg"] - 0.5) / d["steps"])), outstep=0, SavePhaseSpace=0)
+        r0 = cli.run(["-c", "/dev/null", "-o", "s.h5"] + cli.optargs(leg), wd)
+        if r0.rc != 0 or "Finished." not in r0.out:
+            return Outcome(False, True, ["crash"], "first leg failed rc=%s: %s %s" % (r0.rc, r0.out[-300:], r0.err[-300:]), sig="c12:runfail")
+        base["InitialDistFile"] = "s.h5"
     # warm the wisdom with a discarded run if this worker has never planned these lengths
     r0, _ = run_member(base, dict(fam[0], name="warm"), wd, 99)
     if r0.rc != 0:
@@ -65,7 +72,7 @@ def run_case(case):
     sets = [tuple(steps_of(h, steps)) for h in results]
     wake_or_renorm = ("/WakePotential/data" in results[0].ds and results[0]["/WakePotential/data"].size > 0) or base.get("RenormalizeCharge", 0) > 0
     nontriv = bool(len(set(sets)) > 1 and d["laststep"] >= 10 and (wake_or_renorm or base.get("RFPhaseModAmplitude", 0) > 0))
-    cls = ["long" if d["laststep"] > 1024 else "short", "rfmod" if base.get("RFPhaseModAmplitude", 0) > 0 else "staticrf",
+    cls = (["from_results_file"] if case.get("startleg") else []) + ["long" if d["laststep"] > 1024 else "short", "rfmod" if base.get("RFPhaseModAmplitude", 0) > 0 else "staticrf",
            "nb%d" % d["nb"], "wake" if "/WakePotential/data" in results[0].ds and results[0]["/WakePotential/data"].size else "nowake",
            "renorm" if base.get("RenormalizeCharge", 0) > 0 else "norenorm"]
     ref = results[0]
@@ -152,7 +159,10 @@ def cases(draw):
     rep["name"] = "rep"
     rep["repeat_of"] = 0
     fam.append(rep)
-    return dict(opts=base, family=fam)
+    c = dict(opts=base, family=fam)
+    if len(base.get("BunchCurrent", [1])) == 1 and draw(st.integers(0, 5)) == 0:
+        c["startleg"] = draw(st.integers(1, 10))
+    return c
 
 
 def subs(tier):
